@@ -3,7 +3,6 @@ from __future__ import annotations
 
 import hashlib
 import math
-import os
 from fractions import Fraction as Fr
 
 import numpy as np
@@ -511,7 +510,7 @@ def _chunk_axis_src(draw, n, cap=8):
     if kind == "1px":
         return ["r", lo]
     if kind == "small":
-        return ["r", max(lo, min(draw(st.integers(2, 7)), max(1, n - 1)))]  # at least two chunks when n >= 2
+        return ["r", max(lo, min(draw(st.integers(2, 7)), max(1, -(-n // 2))))]  # at least two chunks when n >= 2
     # irregular composition of n into <= cap parts
     parts = []
     left = n
@@ -526,7 +525,7 @@ def _chunk_axis_src(draw, n, cap=8):
 
 @st.composite
 def _chunk_axis_dst(draw, n, cap=8):
-    kind = draw(st.sampled_from(["small", "small", "small", "small", "small", "1px", "1px", "1px", "one", "over"]))
+    kind = draw(st.sampled_from(["small", "small", "small", "small", "small", "small", "1px", "1px", "one", "over"]))
     lo = max(1, -(-n // cap))
     if kind == "one":
         return n
@@ -534,7 +533,7 @@ def _chunk_axis_dst(draw, n, cap=8):
         return n + draw(st.integers(1, 5))
     if kind == "1px":
         return lo
-    return max(lo, min(draw(st.integers(2, 9)), max(1, n - 1)))  # at least two chunks when n >= 2
+    return max(lo, min(draw(st.integers(2, 9)), max(1, -(-n // 2))))  # at least two chunks when n >= 2
 
 
 def _pick(mix, salt, options):
@@ -979,8 +978,8 @@ def _multi_chunks(case):
 
 
 def o_schedules(case, T):
-    """Every execution order gives the same chunked result - bit for bit, ambiguous pixels included - and that
-    result passes the comparison with the whole-array result."""
+    """Every execution order gives the same chunked result - bit for bit, ambiguous pixels included (the comparison
+    with the whole-array result is the business of the other sub-checks)."""
     if "xsrc" in case:
         case = _cross_grids(dict(case))
     if _backend_identity(case["src"]) or _backend_identity(case["dst"]):
@@ -1024,21 +1023,21 @@ def _is_d20(sub, case, msg):
 
 def build(chk: Check) -> None:
     # ~25-40 ms per case on an idle core; budgets are generous caps for a loaded machine
-    chk.sub("same_crs_nearest", o_same_crs, strategy=s_same_linear(), n={"quick": 600, "thorough": 16000},
-            budget_s={"quick": 50, "thorough": 300}, shrink=False)
-    chk.sub("same_crs_rotated", o_same_crs, strategy=s_same_rotated(), n={"quick": 160, "thorough": 5000},
-            budget_s={"quick": 30, "thorough": 130}, shrink=False)
-    chk.sub("cross_crs_nearest", o_cross, strategy=s_cross(), n={"quick": 260, "thorough": 7000},
-            budget_s={"quick": 40, "thorough": 180}, shrink=False)
+    chk.sub("same_crs_nearest", o_same_crs, strategy=s_same_linear(), n={"quick": 800, "thorough": 16000},
+            budget_s={"quick": 60, "thorough": 300}, shrink=False)
+    chk.sub("same_crs_rotated", o_same_crs, strategy=s_same_rotated(), n={"quick": 220, "thorough": 5000},
+            budget_s={"quick": 35, "thorough": 130}, shrink=False)
+    chk.sub("cross_crs_nearest", o_cross, strategy=s_cross(), n={"quick": 340, "thorough": 7000},
+            budget_s={"quick": 45, "thorough": 180}, shrink=False)
     chk.sub("fill_bilinear", o_fill_other,
             strategy=st.one_of(s_same_linear(resampling="bilinear"), s_same_linear(resampling="bilinear"), s_cross(resampling="bilinear")),
-            n={"quick": 160, "thorough": 4000}, budget_s={"quick": 30, "thorough": 100}, shrink=False)
+            n={"quick": 220, "thorough": 4000}, budget_s={"quick": 35, "thorough": 100}, shrink=False)
     chk.sub("disjoint_all_fill", o_disjoint,
             strategy=st.one_of(s_same_linear(places=["disjoint"]),
                                s_same_linear(places=["disjoint", "touching"], klasses=["scale_k", "mirror_xy", "shift_int"]),
                                s_cross(far_apart=True)),
-            n={"quick": 120, "thorough": 3000}, budget_s={"quick": 30, "thorough": 90}, shrink=False)
+            n={"quick": 160, "thorough": 3000}, budget_s={"quick": 30, "thorough": 90}, shrink=False)
     chk.sub("schedules", o_schedules,
             strategy=st.one_of(s_same_linear(places=["partial", "covers", "contained"]), s_same_rotated(), s_cross()).map(_multi_chunks),
-            n={"quick": 60, "thorough": 2000}, budget_s={"quick": 25, "thorough": 100}, shrink=False)
+            n={"quick": 80, "thorough": 2000}, budget_s={"quick": 30, "thorough": 100}, shrink=False)
     chk.known("D20", _is_d20)
